@@ -114,7 +114,10 @@ class EqualsPredicate:
                 simplified = unannotate(value)
                 if isinstance(simplified, TypedValue) and simplified.typ is bool:
                     return KnownValue(not self.pattern_val)
-            elif safe_issubclass(pattern_type, enum.Enum):
+            elif safe_issubclass(pattern_type, enum.Enum) and not safe_issubclass(
+                pattern_type, enum.Flag
+            ):
+                # (the named members of a Flag are not all of its instances)
                 simplified = unannotate(value)
                 if isinstance(simplified, TypedValue) and simplified.typ is type(
                     self.pattern_val
@@ -151,6 +154,9 @@ class InPredicate:
                 if not result:
                     return None
         elif positive:
+            if isinstance(self.pattern_vals, (str, bytes, bytearray)):
+                # "in" is a substring test here; we can't enumerate the matches
+                return value
             acceptable_values = [
                 KnownValue(pattern_val)
                 for pattern_val in self.pattern_vals
@@ -161,7 +167,9 @@ class InPredicate:
             else:
                 return None
         else:
-            if safe_issubclass(self.pattern_type, enum.Enum):
+            if safe_issubclass(self.pattern_type, enum.Enum) and not safe_issubclass(
+                self.pattern_type, enum.Flag
+            ):
                 simplified = unannotate(value)
                 if (
                     isinstance(simplified, TypedValue)
